@@ -229,6 +229,12 @@ def features(pid, tier, seed, wd, bins, out):
     rc, o = sh([bins["debug"], "run", "--ops", wops, "--obs", wobs], timeout=120)
     rc, o = sh([RUNNER, "--ops", wops, "--obs", wmod, "--dbg", "1"], timeout=120)
     bat["wrap"] = (wops, wobs, wmod)
+    # deep printer shapes (more than 16 nested last children with multi-line payloads): same text in every build
+    dops, dobs, dmod = os.path.join(wd, "bat.printdeep.ops"), os.path.join(wd, "bat.printdeep.obs"), os.path.join(wd, "bat.printdeep.model")
+    open(dops, "w").write("\n".join(printdeep_ops(tier)[0]) + "\n")
+    rc, o = sh([bins["debug"], "run", "--ops", dops, "--obs", dobs], timeout=300)
+    rc, o = sh([RUNNER, "--ops", dops, "--obs", dmod, "--dbg", "1"], timeout=300)
+    bat["printdeep"] = (dops, dobs, dmod)
     mis_ops, mis_obs = os.path.join(wd, "bat.misuse.ops"), os.path.join(wd, "bat.misuse.obs")
     rc, o = sh([bins["debug"], "gen", "--seed", str(seed + 9), "--hists", str(hists), "--len", "40", "--profile", "misuse", "--ops", mis_ops, "--obs", mis_obs], timeout=300)
     have_misuse = (rc == 0)
@@ -366,14 +372,12 @@ def enum_scope(pid, tier, seed, wd, bins, out):
     out["rule"] += " enum: exhaustive over (8 insert entry points x all ordered pairs of usable ids) + detach/remove/remove_subtree/append_value/new_node, from %d seed shapes." % shapes_used
 
 # ------------------------------------------------------------------------------------------
-def printdeep(pid, tier, seed, wd, bins, out):
-    """deterministic deep shapes for the printer: long spines of last / only / non-last children with
-    multi-line payloads (many whitespace-only guide levels, many bar guides), printed from every node
-    in all four modes"""
+def printdeep_ops(tier):
+    """deep spines of only / last / first / mixed children with multi-line multi-chunk payloads, printed in 4 modes"""
     def hexs(b): return b.encode().hex()
     ops, hn = [], 0
     for kind in ("only", "last", "first", "mixed"):
-        depth = 14 if tier == "quick" else 40
+        depth = 20 if tier == "quick" else 40
         ops.append("hist %d" % hn); hn += 1
         v = 1
         ops.append("new %d" % v); handles = [0]; nh = 1; v += 1
@@ -395,6 +399,13 @@ def printdeep(pid, tier, seed, wd, bins, out):
                 for mode in range(4):
                     ops.append("qp %d %d" % (hd, mode))
         ops.append("end")
+    return ops, hn
+
+def printdeep(pid, tier, seed, wd, bins, out):
+    """deterministic deep shapes for the printer: long spines of last / only / non-last children with
+    multi-line payloads (many whitespace-only guide levels, many bar guides), printed from every node
+    in all four modes"""
+    ops, hn = printdeep_ops(tier)
     for build in ("debug", "release"):
         r = vlib.run_ops_once(pid, wd, bins[build], build, ops, "printdeep-" + build)
         out["evaluations"] += r["stat"].get(pid, 0)
